@@ -4,6 +4,8 @@ pub mod c02;
 pub mod c03;
 pub mod c04;
 pub mod c05;
+pub mod c06;
+pub mod c07;
 pub mod c08;
 pub mod c09;
 pub mod c10;
@@ -12,6 +14,7 @@ pub mod c13;
 pub mod c14;
 pub mod c15;
 pub mod c16;
+pub mod c17;
 pub mod c20;
 
 use crate::out::Ctx;
@@ -24,6 +27,8 @@ pub fn dispatch(prop: &str, ctx: &Ctx, _rest: &[String]) -> bool {
         "c03" => c03::run(ctx),
         "c04" => c04::run(ctx),
         "c05" => c05::run(ctx),
+        "c06" => c06::run(ctx),
+        "c07" => c07::run(ctx),
         "c08" => c08::run(ctx),
         "c09" => c09::run(ctx),
         "c10" => c10::run(ctx),
@@ -34,6 +39,7 @@ pub fn dispatch(prop: &str, ctx: &Ctx, _rest: &[String]) -> bool {
         "c14" => c14::run(ctx),
         "c15" => c15::run(ctx),
         "c16" => c16::run(ctx),
+        "c17" => c17::run(ctx),
         "c20" => c20::run(ctx),
         _ => return false,
     }
